@@ -1,5 +1,6 @@
 import DaskModel.Props.C17c
 import DaskModel.Model.ConfigSpec
+import DaskModel.Lemmas.ConfigInterp
 /-!
 # C17 (extension round) — `update(..., priority="new-defaults")` at any depth
 
@@ -413,5 +414,139 @@ example :
         (some (.node [("a_b", .node [("x", .leaf 1)])]))
       = some [("a-b", .node [("x", .leaf 1)])] := by
   simp [update, updateGo, updateNode, leafWins, subDefaults, truthy, canonicalName, dhas, dget, dset, curOf]
+
+/-! ## `interpret_value` (environment-variable values) on the documented literal grammar
+
+Model `Model/ConfigInterp.lean` (`interpretValue` = `ast.literal_eval` on the modelled grammar, then the hard-coded words
+in any letter case, else the string itself; `reprLit` = `repr`); lemmas `Lemmas/ConfigInterp.lean`. -/
+section Interp
+open Dask.Interp
+
+/-- **interpret_value(repr(v)) = v** for every value of the modelled class — ints of any size and sign, float texts
+`digits.digits`, `True/False/None`, strings `repr` prints without escapes, lists and dicts of these, ANY nesting. -/
+theorem interpret_value_roundtrip (v : Lit) (h : LitOK v) : interpretValue (reprLit v) = .lit v := by
+  unfold interpretValue
+  rw [parseLit_repr v h]
+
+/-- the shape of the documented rule: what is neither a literal nor one of the hard-coded words stays the string it is -/
+theorem interpret_value_identity (s : List Char) (h1 : parseLit s = none) (h2 : hardcoded s = none) :
+    interpretValue s = .raw s := by
+  unfold interpretValue
+  rw [h1, h2]
+
+/-- **identity on non-literal strings**: a text that starts with a letter or `_` (an address, a path component, a scheduler
+name, …) is returned unchanged unless it is `True` / `False` / `None` (followed by blanks) or one of the four hard-coded
+words `none null false true` in some letter case. -/
+theorem interpret_value_identity_on_words (c : Char) (r : List Char) (hc : Dask.Bytes.isAlpha c = true ∨ c = '_')
+    (hkw : ∀ ws, ws.all isWs = true → c :: r ≠ kwTrue ++ ws ∧ c :: r ≠ kwFalse ++ ws ∧ c :: r ≠ kwNone ++ ws)
+    (hh : hardcoded (c :: r) = none) : interpretValue (c :: r) = .raw (c :: r) := by
+  cases hp : parseLit (c :: r) with
+  | none => exact interpret_value_identity _ hp hh
+  | some v =>
+    obtain ⟨ws, hws, hcases⟩ := parseLit_word c r v hc hp
+    obtain ⟨h1, h2, h3⟩ := hkw ws hws
+    rcases hcases with e | e | e
+    · exact absurd e h1
+    · exact absurd e h2
+    · exact absurd e h3
+
+/-- **booleans / None in any letter case**: a text whose lower-case form is `true`, `false`, `none` or `null` becomes
+`True`, `False`, `None`, `None` — whether `literal_eval` already reads it (`True`, `None`, `False`) or the hard-coded map does. -/
+theorem interpret_value_words_any_case (s : List Char) :
+    (Dask.PyStr.lowerL s = ['t', 'r', 'u', 'e'] → interpretValue s = .lit (.bool true)) ∧
+    (Dask.PyStr.lowerL s = ['f', 'a', 'l', 's', 'e'] → interpretValue s = .lit (.bool false)) ∧
+    (Dask.PyStr.lowerL s = ['n', 'o', 'n', 'e'] → interpretValue s = .lit .none) ∧
+    (Dask.PyStr.lowerL s = ['n', 'u', 'l', 'l'] → interpretValue s = .lit .none) := by
+  refine ⟨?_, ?_, ?_, ?_⟩
+  · intro h
+    apply any_case s (.bool true) 't' ['r', 'u', 'e'] h (by decide)
+    · simp [hardcoded, h]
+    · intro ws _
+      refine ⟨?_, ?_, ?_⟩
+      · intro hl
+        have : ws = [] := by simpa [Dask.PyStr.lowerL, kwTrue] using hl
+        subst this; rfl
+      · intro hl; simp [Dask.PyStr.lowerL, kwFalse] at hl
+      · intro hl; simp [Dask.PyStr.lowerL, kwNone] at hl
+  · intro h
+    apply any_case s (.bool false) 'f' ['a', 'l', 's', 'e'] h (by decide)
+    · simp [hardcoded, h]
+    · intro ws _
+      refine ⟨?_, ?_, ?_⟩
+      · intro hl; simp [Dask.PyStr.lowerL, kwTrue] at hl
+      · intro hl
+        have : ws = [] := by simpa [Dask.PyStr.lowerL, kwFalse] using hl
+        subst this; rfl
+      · intro hl; simp [Dask.PyStr.lowerL, kwNone] at hl
+  · intro h
+    apply any_case s .none 'n' ['o', 'n', 'e'] h (by decide)
+    · simp [hardcoded, h]
+    · intro ws _
+      refine ⟨?_, ?_, ?_⟩
+      · intro hl; simp [Dask.PyStr.lowerL, kwTrue] at hl
+      · intro hl; simp [Dask.PyStr.lowerL, kwFalse] at hl
+      · intro hl
+        have : ws = [] := by simpa [Dask.PyStr.lowerL, kwNone] using hl
+        subst this; rfl
+  · intro h
+    apply any_case s .none 'n' ['u', 'l', 'l'] h (by decide)
+    · simp [hardcoded, h]
+    · intro ws _
+      refine ⟨?_, ?_, ?_⟩
+      · intro hl; simp [Dask.PyStr.lowerL, kwTrue] at hl
+      · intro hl; simp [Dask.PyStr.lowerL, kwFalse] at hl
+      · intro hl; simp [Dask.PyStr.lowerL, kwNone] at hl
+
+/-- non-vacuity of the round trip: `[-5, "it's", {'k': 1.5, 3: [True, None]}]` is in the class and this is its `repr` -/
+example :
+    LitOK (.list [.int (-5), .str "it's".toList, .dict [(.str ['k'], .flt false ['1'] ['5']), (.int 3, .list [.bool true, .none])]]) ∧
+    reprLit (.list [.int (-5), .str "it's".toList, .dict [(.str ['k'], .flt false ['1'] ['5']), (.int 3, .list [.bool true, .none])]])
+      = "[-5, \"it's\", {'k': 1.5, 3: [True, None]}]".toList := by
+  refine ⟨?_, by decide⟩
+  simp only [LitOK, ListOK, PairsOK, FltOK, StrOK, and_true, true_and]
+  refine ⟨?_, by decide, by decide⟩
+  refine ⟨?_, by decide⟩
+  intro c hc
+  have : c ∈ ['i', 't', '\'', 's'] := by simpa using hc
+  revert c
+  decide
+
+/-- non-vacuity of the identity theorem: an address, and a word that only looks like a keyword -/
+example : hardcoded "tcp://host:8786".toList = none ∧ hardcoded "Truex".toList = none ∧
+    parseLit "tcp://host:8786".toList = none ∧ parseLit "Truex".toList = none ∧
+    parseLit "True ".toList = some (.bool true) ∧ hardcoded "nUlL".toList = some .none := by
+  refine ⟨by decide, by decide, by rfl, by rfl, by rfl, by rfl⟩
+
+end Interp
+
+/-! ## serialize / deserialize (`DASK_INTERNAL_INHERIT_CONFIG`)
+
+`serialize` = `base64(json.dumps(·))`, `deserialize` its inverse: external functions, not modelled.  ASSUMED (checked by
+the oracle of sections `glue`, `env`, `serset` on every run, for JSON-representable configurations): `deserialize(serialize(c)) = c`.
+Model-level corollary: a `set` on the deserialised copy behaves exactly like a `set` on the original — the value set is
+the one `get` returns, leaving the block restores the ORIGINAL configuration, and every other `get` is unchanged. -/
+theorem set_get_through_serialize {σ : Type} (ser : Dict → σ) (de : σ → Option Dict) (hrt : ∀ c, de (ser c) = some c)
+    (c : Dict) (keys : List String) (v : Cfg) :
+    ∃ c', de (ser c) = some c' ∧
+      (∀ d' rec, setInit [some (keys, v)] c' = .ok d' rec →
+        getPath keys (.node d') = .ok v ∧ rollback rec d' = some c) ∧
+      (∀ key, get key c' = get key c) := by
+  refine ⟨c, hrt c, ?_, fun _ => rfl⟩
+  intro d' rec h
+  refine ⟨?_, exit_restores _ c d' rec h⟩
+  unfold setInit at h
+  simp only [applyOps] at h
+  cases ha : assign keys v c [] true with
+  | none => rw [ha] at h; simp [rollback, undoAll] at h
+  | some res =>
+    obtain ⟨d1, r1⟩ := res
+    rw [ha] at h
+    simp only [List.nil_append, SetResult.ok.injEq] at h
+    rw [← h.1]
+    exact get_after_assign keys v c d1 [] true r1 ha
+
+/-- non-vacuity: any codec with the round-trip property will do — e.g. the identity -/
+example : ∃ d' rec, setInit [some (["a", "b_c"], Cfg.leaf 1)] [("a", .node [("b-c", .leaf 0)])] = .ok d' rec :=
+  ⟨_, _, rfl⟩
 
 end Dask.C17
